@@ -9,7 +9,7 @@
      channel: delivery ledger + linearizability + Settle conditions).  Every execution is judged (SpecAll); an execution the
      default specification rejects is re-judged with ONE known-finding switch on and attributed to that finding if it is
      accepted then; it counts as KNOWN-FINDING only if known-findings.json lists the finding as open for C09."""
-import json, os, re
+import json, os, re, time
 from concurrent.futures import ThreadPoolExecutor
 import vtlib
 from checks import tracecheck
@@ -46,7 +46,7 @@ def _is_open(ctx, fid):
     return False
 
 
-def judge_all(ctx, execs, tag, env=None, chunk_events=5000, par=8, timeout=1500):
+def judge_all(ctx, execs, tag, env=None, chunk_events=4000, par=8, timeout=1500):
     """execs: list of executions (lists of rows).  Returns list of booleans (accepted by the specification, with env)."""
     chunks, cur, n = [], [], 0
     for i, e in enumerate(execs):
@@ -95,19 +95,27 @@ def judge_and_report(ctx, rows, name):
     verdict = judge_all(ctx, execs, f'judge_{name}')
     rej = [i for i, v in enumerate(verdict) if not v]
     ctx.traces_ok += len(execs) - len(rej)
-    stats = {'executions': len(execs), 'rejected': len(rej), 'by_finding': {}}
+    stats = {'executions': len(execs), 'rejected': len(rej), 'by_finding': {}, 'by_mode': {}}
+    for i, e in enumerate(execs):
+        m = stats['by_mode'].setdefault(e[0].get('prim', '?'), {'executions': 0, 'rejected': 0})
+        m['executions'] += 1
+        m['rejected'] += 0 if verdict[i] else 1
     if not rej:
         return stats
     # which single known-finding switch explains a rejected execution?
     explained = {i: [] for i in rej}
-    for fid, f in FINDINGS.items():
+
+    def with_switch(fid):
+        f = FINDINGS[fid]
         cand = [i for i in rej if f['when'](execs[i][0])]
         if not cand:
-            continue
-        v = judge_all(ctx, [execs[i] for i in cand], f'kf_{fid}_{name}', env={f['env']: '1'})
-        for i, ok in zip(cand, v):
-            if ok:
-                explained[i].append(fid)
+            return fid, [], []
+        return fid, cand, judge_all(ctx, [execs[i] for i in cand], f'kf_{fid}_{name}', env={f['env']: '1'}, par=4)
+    with ThreadPoolExecutor(max_workers=4) as ex:
+        for fid, cand, v in ex.map(with_switch, list(FINDINGS)):
+            for i, ok in zip(cand, v):
+                if ok:
+                    explained[i].append(fid)
     hits, unexplained = {}, []
     for i in rej:
         if len(explained[i]) >= 1:
@@ -119,7 +127,10 @@ def judge_and_report(ctx, rows, name):
         e = execs[idx[0]]
         rp = ctx.save_replay(f'{name}_{fid}.ndjson', ''.join(json.dumps(r, separators=(',', ':')) + '\n' for r in e))
         rs = e[0]
-        ex = f'{len(idx)} of {len(execs)} recorded execution(s) in mode {name} are rejected by the channel specification and accepted only with the deviation {FINDINGS[fid]["env"]}; first: cap={rs["cap"]} vcpus={rs["vcpus"]} {rs.get("seq", "")} mask={rs.get("mask")}'
+        pm = {}
+        for i in idx:
+            pm[execs[i][0].get('prim', '?')] = pm.get(execs[i][0].get('prim', '?'), 0) + 1
+        ex = f'{len(idx)} of {len(execs)} recorded execution(s) {pm} are rejected by the channel specification and accepted only with the deviation {FINDINGS[fid]["env"]}; first: mode={rs.get("prim")} cap={rs["cap"]} vcpus={rs["vcpus"]} {rs.get("seq", "")} mask={rs.get("mask")}'
         if _is_open(ctx, fid):
             ctx.known(fid, f'{FINDINGS[fid]["what"]} [{ex}; example {rp}]')
         else:
@@ -143,26 +154,55 @@ def judge_and_report(ctx, rows, name):
 
 
 # ---------------------------------------------------------------------------------------------------- model checking
-# (cfg, timeout, expectation): None = must pass; a finding id = must violate MC_EXPECT[id]
-MC_Q = [('MC_GoChannel_u_aswritten.cfg', 600, 'F3'), ('MC_GoChannel_b_lw.cfg', 600, 'LW'), ('MC_GoChannel_b_cl.cfg', 600, 'CL'),
-        ('MC_GoChannel_b_dr.cfg', 600, 'DR'), ('MC_GoChannel_u_quick.cfg', 900, None), ('MC_GoChannel_b1_quick.cfg', 900, None),
-        ('MC_GoChannel_b1_aswritten_quick.cfg', 900, None)]
-MC_T = MC_Q[:4] + [('MC_GoChannel_u_thorough.cfg', 2400, None), ('MC_GoChannel_b1_thorough.cfg', 2400, None),
-                   ('MC_GoChannel_b2_thorough.cfg', 2400, None), ('MC_GoChannel_b1_aswritten_thorough.cfg', 2400, None),
-                   ('MC_GoChannel_u_guardonly.cfg', 600, 'F3g'), ('MC_GoChannel_u_turnonly.cfg', 600, 'F3t')]
+# (cfg, timeout, expectation): None = must pass; a finding id = the as-written deviation must violate MC_EXPECT[id];
+# 'F3g' / 'F3t' = one half of the F3 patch alone must still fail
+MC_Q = [('MC_GoChannel_u_aswritten.cfg', 900, 'F3'), ('MC_GoChannel_b_lw.cfg', 900, 'LW'), ('MC_GoChannel_b_cl.cfg', 900, 'CL'),
+        ('MC_GoChannel_b_dr.cfg', 900, 'DR'), ('MC_GoChannel_u_quick.cfg', 1200, None), ('MC_GoChannel_b1_quick.cfg', 1200, None),
+        ('MC_GoChannel_b1_aswritten_quick.cfg', 1200, None)]
+MC_T = MC_Q[:4] + [('MC_GoChannel_u_thorough.cfg', 3000, None), ('MC_GoChannel_b1_thorough.cfg', 3000, None),
+                   ('MC_GoChannel_b1x_thorough.cfg', 3000, None), ('MC_GoChannel_b2_quick.cfg', 3000, None), ('MC_GoChannel_b2_thorough.cfg', 3000, None),
+                   ('MC_GoChannel_b1_aswritten_thorough.cfg', 3000, None),
+                   ('MC_GoChannel_u_guardonly.cfg', 900, 'F3g'), ('MC_GoChannel_u_turnonly.cfg', 900, 'F3t')]
 
 
-def model_check(ctx, runs):
+def mc_start(ctx, runs, pool):
+    """the small as-written runs one after the other in one thread, the exhaustive ones side by side"""
+    small = [x for x in runs if x[2] is not None]
+    big = [x for x in runs if x[2] is None]
+    w = max(2, 12 // max(len(big), 1))
+    res = {}
+
+    def chain():
+        for cfg, to, expect in small:
+            res[cfg] = ctx.tlc('GoChannel', cfg, workers=2, timeout=to, xmx='4g')
+    ch = pool.submit(chain)
+    futs = [(cfg, expect, pool.submit(ctx.tlc, 'GoChannel', cfg, workers=w, timeout=to, xmx='6g')) for cfg, to, expect in big]
+
+    class Later:
+        def __init__(self, cfg): self.cfg = cfg
+        def result(self):
+            ch.result()
+            return res[self.cfg]
+    return futs + [(cfg, expect, Later(cfg)) for cfg, to, expect in small]
+
+
+def mc_collect(ctx, futs):
     doc = {}
-    for cfg, to, expect in runs:
-        r = ctx.mc('GoChannel', cfg, timeout=to, count=(expect is None), workers=12)
+    for cfg, expect, f in futs:
+        r = f.result()
+        if r['timeout']:
+            raise vtlib.InfraError(f'TLC timed out on GoChannel/{cfg} (see {r["log"]})')
+        if r['error'] or r['rc'] not in (0, 12):
+            raise vtlib.InfraError(f'TLC failed on GoChannel/{cfg} rc={r["rc"]} (see {r["log"]})\n' + r['out'][-1500:])
+        ctx.mc_runs.append({k: r[k] for k in ('module', 'cfg', 'generated', 'distinct', 'depth', 'wall_s', 'rc')})
         if expect is None:
+            ctx.states += r['distinct']; ctx.transitions += r['generated']
             if r['rc'] != 0:
                 rp = ctx.save_replay(f'mc_{cfg}.txt', r['out'][-12000:])
                 ctx.violation(f'specification GoChannel/{cfg} violates {r["inv_violated"] or "a property"}', rp)
             continue
-        if expect in ('F3g', 'F3t'):        # half patches: each alone must still fail (the patch is minimal)
-            doc[expect] = r['inv_violated']
+        if expect in ('F3g', 'F3t'):        # half patches: each alone must still fail (the proposed patch is minimal)
+            doc[expect] = {'cfg': cfg, 'violates': r['inv_violated']}
             if not r['inv_violated']:
                 raise vtlib.InfraError(f'GoChannel/{cfg}: a half of the F3 patch is not detected as insufficient')
             continue
@@ -181,34 +221,42 @@ def model_check(ctx, runs):
 
 def run(ctx):
     quick = ctx.tier == 'quick'
+    t0 = time.time()
+    T = {}
     ctx.samples.append({'constants': open(f'{vtlib.SPEC}/MC_GoChannel_u_quick.cfg' if quick else f'{vtlib.SPEC}/MC_GoChannel_u_thorough.cfg').read()})
-    if not os.environ.get('VERIF_SKIP_MC'):
-        model_check(ctx, MC_Q if quick else MC_T)
+    pool = ThreadPoolExecutor(max_workers=12)
+    futs = [] if os.environ.get('VERIF_SKIP_MC') else mc_start(ctx, MC_Q if quick else MC_T, pool)
     ctx.build_lib()
     h = ctx.build_harness('h_gochan')
+    T['built'] = round(time.time() - t0, 1)
     # (mode, executions, extra args)
-    modes = [('dir', 4000, ['--masks', 'ends']), ('rand', 400, []), ('gate', 10, [])] if quick else \
+    modes = [('dir', 1000, ['--masks', 'ends']), ('rand', 200, []), ('gate', 5, [])] if quick else \
             [('dir', 0, ['--masks', 'all']), ('rand', 5000, []), ('gate', 50, [])]
-    ctx.extra['executions_recorded'] = 0
-    ctx.extra['modes'] = {}
+    rows = []
+    rcs = {}
     for mode, n, extra in modes:
         trace = f'{ctx.out}/{mode}.ndjson'
         rc, o, e = ctx.run_harness(h, ['--prim', mode, '--execs', n, '--seed', ctx.seed, '--vcpus', 3, '--threads', 5, '--ops', 5,
                                         '--out', trace] + extra, timeout=1500, ok_rcs=(0, 3, 4))
         if rc == 124:
             raise vtlib.InfraError(f'h_gochan --prim {mode} timed out')
-        rows = vtlib.read_ndjson(trace)
-        if not rows:
+        r = vtlib.read_ndjson(trace)
+        if not r:
             raise vtlib.InfraError(f'h_gochan --prim {mode} recorded nothing')
-        st = judge_and_report(ctx, rows, mode)
-        st['harness_rc'] = rc
-        if mode == 'gate':
-            st['gates_held'] = sum(1 for r in rows if r.get('e') == 'Gate' and r.get('at') == 'released' and r.get('held'))
-        ctx.extra['modes'][mode] = st
-        ctx.extra['executions_recorded'] += st['executions']
-        ex = tracecheck.split_execs(rows)
-        if len(ctx.samples) < 6:
-            ctx.samples.append({'mode': mode, 'recorded_execution': ex[min(7, len(ex) - 1)][:30]})
+        rcs[mode] = rc
+        ex = tracecheck.split_execs(r)
+        ctx.samples.append({'mode': mode, 'recorded_execution': ex[min(7, len(ex) - 1)][:30]})
+        rows += r
+    T['recorded'] = round(time.time() - t0, 1)
+    st = judge_and_report(ctx, rows, 'run')
+    st['harness_rc'] = rcs
+    st['gates_held'] = sum(1 for r in rows if r.get('e') == 'Gate' and r.get('at') == 'released' and r.get('held'))
+    ctx.extra['executions_recorded'] = st['executions']
+    ctx.extra['conformance'] = st
+    T['judged'] = round(time.time() - t0, 1)
+    mc_collect(ctx, futs)
+    T['model_checked'] = round(time.time() - t0, 1)
+    ctx.extra['timing_s'] = T
     for fid in FINDINGS:
         if _is_open(ctx, fid) and not any(fid == k for k, _ in ctx.known_hits):
             print(f'NOTE property={ctx.pid} finding {fid} is listed as open but was not hit in this run', flush=True)
